@@ -69,6 +69,9 @@ DIRECTED = [
     "functie f(c) { stel s = \"abc\"; stel r = s[0]; s[0] = c; r } f(\"x\"); f(\"y\")",
     "stel a = \"abc\"; stel b = \"abc\"; a[0] = \"x\"; b", "stel i = 0; zolang i < 3 { i += 1; stel s = \"abc\"; s[0] = \"\"; print(\"{}\", s) } \"abc\"",
     "stel a = \"kat\"; stel b = [\"kat\"]; stel c = b[0]; c[1] = \"o\"; [a, b, \"kat\"]", "functie f(x) { x + 1.5 } f(1.5) + 1.5",
+    "stel nul = 0.0; stel min = -0.0; [1.0 / min, 1.0 / nul, 1.0 / -0.0]", "stel min = -0.0; stel nul = 0.0; [1.0 / min, 1.0 / nul]", "[-1, 1, -1, 0 - 1, -(1)]", "functie f(x) { [x - 1, -1 + x, x * -1] } f(5)",
+    "stel a = string(\"abc\"); a[0] = \"XY\"; [\"abc\", a, string(\"abc\"), lengte(\"abc\")]", "stel a = string(\"q\"); stel b = string(\"q\"); a[0] = \"w\"; [a, b, \"q\"]",
+    "print(\"abc\"); stel s = string(\"abc\"); s[1] = \"\"; print(\"abc\"); type(\"abc\")",
     "functie f(n) { n + 1152921504606846975 } f(1)", "functie f(n) { 1152921504606846975 + n } f(1)", "functie f(n) { n / 0 } f(1)", "functie f(n) { 0 / n } f(0)",
     "functie f(s) { s + 1 } f(\"a\")", "functie f(s) { 1 < s } f(nee)",
 ]
@@ -113,6 +116,23 @@ def run(ctx, log):
         v_src.append(nlast.to_source(pre + a))
         v_kind.append("prepend-literals")
         v_base.append(i)
+    # an integer literal equal to the packed word of a function constant of the same program (entry << 16 | locals) is still
+    # that integer: append it to programs that define functions, reading the constants from the REAL bytecode
+    import re as _re
+    coll_src, coll_exp = [], []
+    for i, a in enumerate(asts):
+        if a is None or not obs["compile"][i].startswith("OK") or ev[i].startswith("BUDGET") or not ev[i].startswith("OK"):
+            continue
+        for ip, nl in _re.findall(r" f(\d+)\.(\d+)", obs["compile"][i])[:2]:
+            lit = int(ip) * 65536 + int(nl)
+            coll_src.append(base[i] + " ; print(\"{}\", %d) ; %d + 1" % (lit, lit))
+            coll_exp.append((str(lit), "OK i%d" % (lit + 1)))
+    for (src, (txt, val)), o in zip(zip(coll_src, coll_exp), vlib.nlh("eval", ["40000 " + vlib.hexs(s) for s in coll_src], tag="c10c", timeout=300)):
+        ctx.seen(("collide", src))
+        ctx.count("variant:colliding-literal")
+        out = progcheck.out_of(o)
+        if progcheck.head(o) != val or not out.endswith(".".join(str(ord(c)) for c in txt) + ".10"):
+            ctx.violate("an integer literal that happens to equal the encoding of a function constant of the same program is not that integer any more", source=src[-300:], observed=(progcheck.head(o) + " | " + out[-80:])[:300], expected=val)
     ve = vlib.nlh("eval", ["40000 " + vlib.hexs(s) for s in v_src], tag="c10v", timeout=300)
     for s, kind, bi, e in zip(v_src, v_kind, v_base, ve):
         ctx.seen((kind, s))
